@@ -2,3 +2,7 @@ import MbVerif.Fp
 import MbVerif.Types
 import MbVerif.Codec
 import MbVerif.Framework
+import MbVerif.Validate
+import MbVerif.Trace
+import MbVerif.Spec.C04
+import MbVerif.Props.C05
